@@ -69,7 +69,15 @@ func hostileGenesis(r *rand.Rand, collide, ck int) *ct.GenesisState {
 		d := Domains[r.Intn(len(Domains))]
 		if !seenM[d] {
 			seenM[d] = true
-			gs.TokenMessengerList = append(gs.TokenMessengerList, ct.RemoteTokenMessenger{DomainId: d, Address: Messenger(d, r.Intn(2))})
+			addr := Messenger(d, r.Intn(2))
+			// only a genesis file can hold a messenger address that is not 32 bytes wide; it is an entry like any other
+			switch w := []int{32, 32, 20, 32, 33, 32, 64, 1, 31, 32, 0}[(len(gs.TokenMessengerList)+len(gs.UsedNoncesList))%11]; {
+			case w < 32:
+				addr = addr[32-w:]
+			case w > 32:
+				addr = append(addr, Structured32(byte(d))[:w-32]...)
+			}
+			gs.TokenMessengerList = append(gs.TokenMessengerList, ct.RemoteTokenMessenger{DomainId: d, Address: addr})
 		}
 	}
 	// optional fields present / absent
